@@ -24,12 +24,14 @@ C12-F2 C12 f8390fd
 C11-F1 C11 4d06c22
 C11-F2 C11 b7d6bc2 983d38b
 C11-F3 C11 318ba13 6e9fd16
+C11-F4 C11 1040c0d
 C13-F1 C13 b816e76
 C13-F2 C13 8d10c89
 C13-F4 C13 f069c61
 C15-F1 C15 7e9df0f 82b6cca
 C15-F3 C15 ba0fe32
 C15-F4 C15 7e9df0f
+C15-F5 C15 825370f
 "
 want="$*"
 git -C /repo worktree remove --force $WT 2>/dev/null; git -C /repo worktree add -q --detach $WT HEAD || exit 2
